@@ -465,7 +465,7 @@ func (g *genState) genCase(id string) {
 	g.snaps, g.nextSnap, g.nextIter = nil, 0, 0
 	g.iters, g.fresh, g.itSnap = map[int]int{}, map[int]bool{}, map[int]int{}
 	g.inits = map[string]bool{}
-	wantIters := g.weight(30, "C07 C08 C01 C02", 3)
+	wantIters := g.weight(30, "C07 C08 C01 C02 C05", 3)
 	wantInit := g.weight(6, "C19", 10)
 	if r.Chance(g.weight(5, "C19 C06", 5)) {
 		// a waiter holds the initialization channel while one initializer is pending; ONE transaction marks it done
